@@ -699,6 +699,14 @@ impl endpoint::Session for Session {
     }
 
     async fn on_incoming_attach(&mut self, attach: Attach) -> Result<(), Self::Error> {
+        // A handle that is still in use by an attached link cannot be attached again
+        if self
+            .link_by_input_handle
+            .contains_key(&InputHandle::from(attach.handle.clone()))
+        {
+            return Err(SessionInnerError::HandleInUse);
+        }
+
         match self.link_by_name.get_mut(&attach.name) {
             Some(link) => match link.take() {
                 Some(mut relay) => {
